@@ -223,6 +223,13 @@ func (x *Exec) fatal(format string, a ...any) {
 // heap returns the current version of a heap in st, creating the epoch's initial version lazily.
 func (x *Exec) heap(st *State, name, sort string) smt.T {
 	if h, ok := st.heaps[name]; ok {
+		// keep heap terms small and trigger-friendly: a large update chain (or one with a conditional) gets a name
+		if len(h.S) > 240 || strings.Contains(h.S, "(ite ") {
+			c := x.ctx.Fresh(name, h.Sort)
+			st.assume(smt.Eq(c, h))
+			st.heaps[name] = c
+			return c
+		}
 		return h
 	}
 	x.regHeap(name, sort)
@@ -1252,7 +1259,7 @@ func (x *Exec) watchParam(name string, v smt.T, t types.Type) {
 			hn, hs := x.elemHeap(u.Elem())
 			h := x.ctx.Const(fmt.Sprintf("%s@0", hn), hs)
 			for i := 0; i < 12; i++ {
-				x.watch = append(x.watch, WatchTerm{fmt.Sprintf("%s[%d]", name, i), smt.Select(smt.Select(h, sArr(v)), smt.Add(sOff(v), smt.IntLit(int64(i))))})
+				x.watch = append(x.watch, WatchTerm{fmt.Sprintf("%s[%d]", name, i), smt.Select(smt.Select(h, sArr(v)), x.at(sOff(v), smt.IntLit(int64(i))))})
 			}
 		}
 	case *types.Pointer, *types.Interface:
@@ -1268,15 +1275,17 @@ func (x *Exec) entryHeapAxiom(name, sort string, h smt.T) {
 	x.ctx.Fun("fresh$", []string{smt.Int}, smt.Bool)
 	idx := indexSortOf(sort)
 	el := elemSortOf(sort)
+	// only objects that existed at entry are covered: what the entry heap "holds" at a not yet allocated reference is
+	// meaningless (callee contracts describe the fields of fresh objects through the same heap term)
 	switch {
 	case strings.HasPrefix(name, "GH$") || strings.HasPrefix(name, "G$"):
 		return
-	case el == smt.Int && (strings.Contains(name, "*") || x.heapHoldsRefs[name]):
-		x.axioms["nofresh:"+name] = "(assert (forall ((r!a " + idx + ")) (! (not (fresh$ (select " + h.S + " r!a))) :pattern ((select " + h.S + " r!a)))))"
-	case el == SliceSort:
-		x.axioms["nofresh:"+name] = "(assert (forall ((r!a " + idx + ")) (! (not (fresh$ (s.arr (select " + h.S + " r!a)))) :pattern ((select " + h.S + " r!a)))))"
+	case el == smt.Int && (strings.Contains(name, "*") || x.heapHoldsRefs[name]) && idx == smt.Int:
+		x.axioms["nofresh:"+name] = "(assert (forall ((r!a Int)) (! (=> (not (fresh$ r!a)) (not (fresh$ (select " + h.S + " r!a)))) :pattern ((select " + h.S + " r!a)))))"
+	case el == SliceSort && idx == smt.Int:
+		x.axioms["nofresh:"+name] = "(assert (forall ((r!a Int)) (! (=> (not (fresh$ r!a)) (not (fresh$ (s.arr (select " + h.S + " r!a))))) :pattern ((select " + h.S + " r!a)))))"
 	case strings.HasPrefix(el, "(Array Int ") && strings.HasPrefix(name, "E$") && (elemSortOf(el) == smt.Int && x.heapHoldsRefs[name]):
-		x.axioms["nofresh:"+name] = "(assert (forall ((r!a Int) (i!a Int)) (! (not (fresh$ (select (select " + h.S + " r!a) i!a))) :pattern ((select (select " + h.S + " r!a) i!a)))))"
+		x.axioms["nofresh:"+name] = "(assert (forall ((r!a Int) (i!a Int)) (! (=> (not (fresh$ r!a)) (not (fresh$ (select (select " + h.S + " r!a) i!a)))) :pattern ((select (select " + h.S + " r!a) i!a)))))"
 	}
 }
 
